@@ -13,7 +13,7 @@ import (
 )
 
 func init() {
-	modes["C09"] = func(res *lp.Result) { runInflight(res, "C09"); runInflightConcurrent(res); runInflightSendVsDeliver(res); runInflightConnection(res); runInflightExplicitConnection(res) }
+	modes["C09"] = func(res *lp.Result) { runInflight(res, "C09"); runInflightConcurrent(res); runInflightSendVsDeliver(res); runInflightConnection(res); runInflightExplicitConnection(res); runInflightTimedOut(res) }
 	modes["C10"] = func(res *lp.Result) { runInflight(res, "C10"); runRoutingConnection(res); runRoutingEventFlood(res); runRoutingTimedPages(res); runRoutingRawPeer(res) }
 }
 
